@@ -135,15 +135,28 @@ impl MultiExecMatcher {
         let _ = matcher_io.deps.get_output().borrow_mut().flush();
         match command.status() {
             Ok(status) => {
+                #[cfg(findutils_verif)]
+                self.verif_emit("XRun", &format!(",\"ok\":{}", status.success()));
                 if !status.success() {
                     matcher_io.set_exit_code(1);
                 }
             }
             Err(e) => {
+                #[cfg(findutils_verif)]
+                self.verif_emit("XRun", ",\"ok\":false");
                 writeln!(&mut stderr(), "Failed to run {}: {}", self.executable, e).unwrap();
                 matcher_io.set_exit_code(1);
             }
         }
+    }
+
+    /// Verification hook: one event of this action's command-line builder.
+    #[cfg(findutils_verif)]
+    fn verif_emit(&self, event: &str, more: &str) {
+        crate::find::verif::emit(format!(
+            "{{\"ev\":\"{event}\",\"id\":\"{:p}\"{more}}}",
+            self as *const Self
+        ));
     }
 }
 
@@ -163,6 +176,8 @@ impl Matcher for MultiExecMatcher {
 
         // Build command, or dispatch it before when it is long enough.
         if command.try_arg(&path_to_file).is_err() {
+            #[cfg(findutils_verif)]
+            self.verif_emit("XFlush", ",\"why\":\"full\"");
             if self.exec_in_parent_dir {
                 match file_info.parent() {
                     None => {
@@ -190,7 +205,15 @@ impl Matcher for MultiExecMatcher {
                 )
                 .unwrap();
                 matcher_io.set_exit_code(1);
+                #[cfg(findutils_verif)]
+                self.verif_emit("XTooLong", "");
+            } else {
+                #[cfg(findutils_verif)]
+                self.verif_emit("XPush", "");
             }
+        } else {
+            #[cfg(findutils_verif)]
+            self.verif_emit("XPush", "");
         }
         true
     }
@@ -200,6 +223,8 @@ impl Matcher for MultiExecMatcher {
         if self.exec_in_parent_dir {
             let mut command = self.command.borrow_mut();
             if let Some(mut command) = command.take() {
+                #[cfg(findutils_verif)]
+                self.verif_emit("XFlush", ",\"why\":\"dir\"");
                 command.current_dir(Path::new(".").join(dir));
                 self.run_command(&mut command, matcher_io);
             }
@@ -211,6 +236,8 @@ impl Matcher for MultiExecMatcher {
         if !self.exec_in_parent_dir {
             let mut command = self.command.borrow_mut();
             if let Some(mut command) = command.take() {
+                #[cfg(findutils_verif)]
+                self.verif_emit("XFlush", ",\"why\":\"end\"");
                 self.run_command(&mut command, matcher_io);
             }
         }
